@@ -238,11 +238,28 @@ class Ctx:
         return [f for f, dropped in self.facts if not dropped]
 
     def feasible(self, c):
+        """may the path continue under c?  `unsat` prunes; anything else continues (an over-approximation of the feasible paths)"""
+        self.solver.set("timeout", 400)
         self.solver.push()
         self.solver.add(c)
         r = self.solver.check()
         self.solver.pop()
         if r == z3.unknown:
+            # second opinion: nlsat on the purified hypotheses (uninterpreted applications replaced by constants; unsat carries over)
+            try:
+                from .solve import purify, nlsat_tactic, relevant_axioms
+                hy = self.hyps() + [c]
+                ph = purify(hy + relevant_axioms(self.axioms, hy))
+                sv = nlsat_tactic().solver()
+                sv.set("timeout", 1500)
+                sv.add(*ph)
+                r2 = sv.check()
+                if r2 == z3.unsat:
+                    return False
+                if r2 == z3.sat:
+                    return True
+            except z3.Z3Exception:
+                pass
             self.feas_unknown = True
         return r != z3.unsat
 
@@ -281,7 +298,7 @@ class Ctx:
             f = f.f_back
         return "-", "-", 0
 
-    def oblige(self, kind, goal, label=None, loc=None, meta=None):
+    def oblige(self, kind, goal, label=None, loc=None, meta=None, narrow=False, hyps=None):
         if loc is None:
             loc = self.where()
         file, func, line = loc
@@ -291,7 +308,19 @@ class Ctx:
         name = f"{kind}{':' + label if label else ''}@{file}:{func}#{n}"
         goal = goal if isinstance(goal, z3.ExprRef) else z3.BoolVal(bool(goal))
         under_cut = any(d for _, d in self.facts) or bool(self.cutdefs)
-        self.obls.append(Obligation(name, kind, label, self.hyps(), goal, len(self.facts), len(self.cutdefs),
+        hy = self.hyps()
+        if hyps is not None:
+            cur = {f.get_id() for f in hy}
+            hy = [f for f in hyps if f.get_id() in cur]       # an explicit SUBSET of the current hypotheses
+        if narrow:
+            # use only the hypotheses that speak exclusively about symbols of the goal (a subset of the hypotheses: sound)
+            from .terms import base_symbols
+            from .solve import relevant_axioms
+            gs = set(base_symbols(goal))
+            for ax in relevant_axioms(self.axioms, [goal]):
+                gs |= base_symbols(ax)
+            hy = [f for f in hy if base_symbols(f) <= gs]
+        self.obls.append(Obligation(name, kind, label, hy, goal, len(self.facts), len(self.cutdefs),
                                     f"{file}:{func}", line, meta or {}, under_cut))
         if kind not in ("cut-lemma", "ieee-bump-effective", "cover") and self.notes.get("bumps"):
             # does the goal compare something against a value that was bumped by a tiny literal?  (then its real-arithmetic proof
@@ -315,8 +344,16 @@ class Ctx:
                 bt, base, eps = bumps[bid]
                 if ("bump", bid) not in self.memo:
                     self.memo[("bump", bid)] = bt
+                    # what the path knows about the magnitude of the base (a bound makes the IEEE question decidable in our favour)
+                    bound = None
+                    if not is_num(base):
+                        for cand in (2, 64):
+                            sv = z3.Solver(); sv.set("timeout", 1500)
+                            sv.add(*self.hyps()); sv.add(z3.Or(base > cand, base < -cand))
+                            if sv.check() == z3.unsat:
+                                bound = cand; break
                     self.oblige("ieee-bump-effective", z3.BoolVal(True), loc=loc, meta={"fp": True, "eps": str(eps), "base": str(base)[:80],
-                                                                                        "base_num": str(num(base)) if is_num(base) else None})
+                                                                                        "base_num": str(num(base)) if is_num(base) else None, "base_abs_le": bound})
         return name
 
     def check(self, kind, goal, **kw):
